@@ -200,7 +200,9 @@ def scaled_cases(ctx):
     scales = [1e3, 1e5, 1e6, 1e7]
     origins = [(0.0, 0.0), (1e6, -2e6), (0.1, 0.2)]
     factors = [0.25, -0.25, 0.5, -0.5, 2.0, -2.0, 4.0, -4.0]
-    tols = [0.001, 0.01, 0.1]
+    # 1e-6 and 3e-7 on chords of 1e7 units: deviations of 1e-13 of the chord - below any
+    # "relative noise floor" a distance formula might apply to its cross product
+    tols = [0.001, 0.01, 0.1, 1e-6, 3e-7]
     if ctx.thorough:
         dirs += [(1, 1), (5, 4), (-9, -2)]
         scales += [1e4, 3e7]
